@@ -41,6 +41,8 @@ type driver struct {
 	invites []*inviteSpec
 	aborted bool
 	dead    bool // the session ended under the script: nothing more can be judged
+	// malformedSent counts foreign presences with undecodable payloads
+	malformedSent int
 }
 
 func (d *driver) addr(room int) string { return d.mc.Rooms[room-1] }
@@ -57,6 +59,12 @@ func (d *driver) sessionEnded() {
 		// transmit properties (C05/C10).
 		d.c.Count("session_lost_to_cancelled_senders_write_deadline", 1)
 		d.c.Notef("Serve returned %v", err)
+		return
+	}
+	if d.malformedSent > 0 {
+		// presences for addresses that were never joined are to be ignored,
+		// whatever they carry
+		d.c.Violate("muc:foreign:malformed-payload-ends-session", "after %d presence(s) with an undecodable muc#user payload from addresses that are not ours (another occupant / a room never joined) the session ended: Serve returned %v", d.malformedSent, err)
 		return
 	}
 	d.c.Violate("muc:session-ended", "the session ended in the middle of the script: Serve returned %v", err)
@@ -203,9 +211,14 @@ func (d *driver) barrier() bool {
 	id := d.w.barrierSend(d.nbar)
 	if !d.w.barrierWait(d.nbar, id, grace) {
 		// Is the serve loop parked inside the MUC handler for good?
-		for _, p := range stall.Check(func(fn string) bool { return strings.HasPrefix(fn, "muc.(*Client).Handle") }, 0) {
-			if _, old := d.base[p.ID]; !old {
-				d.c.Violate(stall.Key(p), "the serve loop no longer answers: it is parked in the MUC handler:\n%s", p.Stack)
+		for _, p := range stall.Check(func(fn string) bool { return strings.HasPrefix(fn, "muc.") }, 0) {
+			// … or is a goroutine of the package parked in a plain channel send
+			// (nothing in it is a legitimate place to wait for ever; the selects of
+			// pending Join/Leave calls are, and are not looked at here) while the
+			// serve loop waits for it to release a response?
+			inHandler := strings.HasPrefix(p.Func, "muc.(*Client).Handle")
+			if _, old := d.base[p.ID]; !old && (inHandler || p.State == "chan send") {
+				d.c.Violate(stall.Key(p), "the serve loop no longer answers a ping; a goroutine of the MUC package is parked for good (in the handler, or holding a response the serve loop waits for):\n%s", p.Stack)
 				d.aborted = true
 				return false
 			}
@@ -327,6 +340,12 @@ func (d *driver) exec(st step) {
 		w.presence(strings.SplitN(d.addr(st.Room), "/", 2)[0]+"/secondwitch", "", "", false)
 	case "other-leaves":
 		w.presence(strings.SplitN(d.addr(st.Room), "/", 2)[0]+"/secondwitch", "unavailable", "", false)
+	case "foreign-malformed":
+		w.foreignMalformed("neverjoined@chat.example.net/somebody", []string{"", "unavailable"}[st.N%2], st.N/2)
+		d.malformedSent++
+	case "other-malformed":
+		w.foreignMalformed(strings.SplitN(d.addr(st.Room), "/", 2)[0]+"/secondwitch", []string{"", "unavailable"}[st.N%2], st.N/2)
+		d.malformedSent++
 	case "foreign":
 		w.presence("neverjoined@chat.example.net/somebody", "", "", false, 110)
 	case "foreign-unavailable":
@@ -391,6 +410,9 @@ func execCase(c *core.Case, mc *muCase) {
 		d.sessionEnded()
 		return
 	default:
+	}
+	if d.malformedSent > 0 {
+		c.Count("foreign_malformed_payloads", d.malformedSent)
 	}
 	judge(c, mc, d, log)
 }
